@@ -17,7 +17,8 @@ RULE = ('(logic) queues of 1-4 requests mixing empty, single-frame, multi-frame,
         '(blocking) real threads calling send() with blocking_send=True on a started TransportLayer: returns normally iff transmitted '
         'completely (single frames included), BlockingSendFailure for aborted ones, BlockingSendTimeout only after send_timeout elapsed, '
         'no caller left blocked after stop().'
-        ' (blocking, hand-over) the request is completed between its hand-over to the layer and the moment the caller starts to wait (post_send_callback drives process() / reset(); a processing thread completes while the caller is held in the callback): send() returns or raises BlockingSendFailure, never times out.')
+        ' (blocking, hand-over) the request is completed between its hand-over to the layer and the moment the caller starts to wait (post_send_callback drives process() / reset(); a processing thread completes while the caller is held in the callback): send() returns or raises BlockingSendFailure, never times out.'
+        ' (two_callers) a queued blocking send() times out while another caller has a request in transmission to a cooperative peer: the second gets BlockingSendTimeout, the first returns normally and its payload is delivered.')
 ASSUME = ['the blocking variant depends on threading.Event and the worker thread: sampled with real threads, not proved']
 
 
